@@ -4,8 +4,10 @@ CONSTANTS
   MaxLen = 4
   Ls = {0, 6, 9}
   SPs = {0, 4}
+  MaxExotic = 1
   D12_EmptyLogPanics = FALSE
   D16_TimeoutDropsPartials = FALSE
   D17_SkipSurvivesTimeout = FALSE
+  D20_BackslashNIsEnd = FALSE
 INVARIANTS TypeOK CutInRange BufBounded TimeoutOnlyWhileCollapsed StatementOK ResidualOK DevSwitched
 CHECK_DEADLOCK FALSE
